@@ -890,6 +890,170 @@ func typeCode(typ, getter string) string {
 	return res
 }
 
+// ---------------------------------------------------------------- accessors and constructors
+
+// recvFieldOf: e is <recv>.<F>
+func recvFieldOf(e ast.Expr, recv string) (string, bool) {
+	if p, ok := e.(*ast.ParenExpr); ok {
+		return recvFieldOf(p.X, recv)
+	}
+	if sel, ok := e.(*ast.SelectorExpr); ok {
+		if id, ok := sel.X.(*ast.Ident); ok && id.Name == recv {
+			return sel.Sel.Name, true
+		}
+	}
+	return "", false
+}
+
+// paramOrByte: e is the parameter, or byte(parameter)
+func paramOrByte(e ast.Expr, param string) bool {
+	if p, ok := e.(*ast.ParenExpr); ok {
+		return paramOrByte(p.X, param)
+	}
+	if id, ok := e.(*ast.Ident); ok {
+		return param != "" && id.Name == param
+	}
+	if c, ok := e.(*ast.CallExpr); ok && len(c.Args) == 1 {
+		if id, ok := c.Fun.(*ast.Ident); ok && id.Name == "byte" {
+			return paramOrByte(c.Args[0], param)
+		}
+	}
+	return false
+}
+
+// accessorSem reads what a one-statement method does: get F | const v | set F | or F | bit F | unknown
+func accessorSem(fd *ast.FuncDecl) (string, string) {
+	recv, param := "", ""
+	if fd.Recv != nil && len(fd.Recv.List) > 0 && len(fd.Recv.List[0].Names) > 0 {
+		recv = fd.Recv.List[0].Names[0].Name
+	}
+	np := 0
+	for _, p := range fd.Type.Params.List {
+		for _, n := range p.Names {
+			param = n.Name
+			np++
+		}
+	}
+	if np > 1 || len(fd.Body.List) != 1 {
+		return "unknown", strings.Join(strings.Fields(show(fd.Body)), " ")
+	}
+	unknown := func() (string, string) { return "unknown", strings.Join(strings.Fields(show(fd.Body.List[0])), " ") }
+	switch st := fd.Body.List[0].(type) {
+	case *ast.ReturnStmt:
+		if len(st.Results) != 1 {
+			return unknown()
+		}
+		r := st.Results[0]
+		if f, ok := recvFieldOf(r, recv); ok {
+			return "get", f
+		}
+		if _, v, ok := constOf(r); ok {
+			return "const", strconv.FormatInt(v, 10)
+		}
+		if b, ok := r.(*ast.BinaryExpr); ok && b.Op == token.NEQ {
+			if _, z, ok := constOf(b.Y); ok && z == 0 {
+				x := b.X
+				if p, ok := x.(*ast.ParenExpr); ok {
+					x = p.X
+				}
+				if a, ok := x.(*ast.BinaryExpr); ok && a.Op == token.AND {
+					if f, ok := recvFieldOf(a.X, recv); ok && paramOrByte(a.Y, param) {
+						return "bit", f
+					}
+				}
+			}
+		}
+	case *ast.AssignStmt:
+		if len(st.Lhs) == 1 && len(st.Rhs) == 1 {
+			if f, ok := recvFieldOf(st.Lhs[0], recv); ok {
+				if st.Tok == token.ASSIGN {
+					if id, ok := st.Rhs[0].(*ast.Ident); ok && param != "" && id.Name == param {
+						return "set", f
+					}
+				}
+				if st.Tok == token.OR_ASSIGN && paramOrByte(st.Rhs[0], param) {
+					return "or", f
+				}
+			}
+		}
+	}
+	return unknown()
+}
+
+// notAccessor: the methods that are covered elsewhere (wire skeletons, type codes, builders) or are not accessors
+var notAccessor = map[string]bool{"Write": true, "Read": true, "GetStepType": true, "GetServiceType": true, "GetPackType": true,
+	"SetProfile": true, "SetStack": true, "SetCtr": true, "WriteVer0": true, "ReadVer0": true, "CtrToJson": true,
+	"ToString": true, "ToBytes": true, "ToObject": true}
+
+// ctorSem: what a constructor does: the type it allocates and the fields it sets (kind int|arg|empty|unknown)
+func ctorSem(name string, depth int) (string, [][3]string, bool) {
+	fd := funcsTop[name]
+	if fd == nil || depth > 3 {
+		return "", nil, false
+	}
+	param := ""
+	for _, p := range fd.Type.Params.List {
+		for _, n := range p.Names {
+			param = n.Name
+		}
+	}
+	typ, obj := "", ""
+	var inits [][3]string
+	okAll := true
+	for _, st := range fd.Body.List {
+		switch x := st.(type) {
+		case *ast.AssignStmt:
+			if len(x.Lhs) != 1 || len(x.Rhs) != 1 {
+				okAll = false
+				continue
+			}
+			if id, ok := x.Lhs[0].(*ast.Ident); ok && x.Tok == token.DEFINE {
+				if c, ok := x.Rhs[0].(*ast.CallExpr); ok {
+					if fid, ok := c.Fun.(*ast.Ident); ok {
+						if fid.Name == "new" && len(c.Args) == 1 {
+							typ, obj = show(c.Args[0]), id.Name
+							continue
+						}
+						if t, in, ok := ctorSem(fid.Name, depth+1); ok && len(c.Args) == 0 {
+							typ, obj = t, id.Name
+							inits = append(inits, in...)
+							continue
+						}
+					}
+				}
+				okAll = false
+				continue
+			}
+			if f, ok := recvFieldOf(x.Lhs[0], obj); ok && obj != "" && x.Tok == token.ASSIGN {
+				r := x.Rhs[0]
+				if id, ok := r.(*ast.Ident); ok && param != "" && id.Name == param {
+					inits = append(inits, [3]string{f, "arg", "0"})
+				} else if _, v, ok := constOf(r); ok {
+					inits = append(inits, [3]string{f, "int", strconv.FormatInt(v, 10)})
+				} else if strings.Join(strings.Fields(show(r)), "") == "make([]byte,0)" {
+					inits = append(inits, [3]string{f, "empty", "0"})
+				} else {
+					inits = append(inits, [3]string{f, "unknown:" + strings.Join(strings.Fields(show(r)), " "), "0"})
+				}
+				continue
+			}
+			okAll = false
+		case *ast.ReturnStmt:
+			if len(x.Results) != 1 {
+				okAll = false
+			} else if id, ok := x.Results[0].(*ast.Ident); !ok || id.Name != obj {
+				okAll = false
+			}
+		default:
+			okAll = false
+		}
+	}
+	if !okAll {
+		inits = append(inits, [3]string{"?", "unknown:statement", "0"})
+	}
+	return typ, inits, typ != ""
+}
+
 func q(s string) string { return strconv.Quote(s) }
 
 var (
@@ -1135,6 +1299,54 @@ func main() {
 		ss = append(ss, fmt.Sprintf("  (%s, %s)", q(st[0]+"."+st[1]), leanTokList(skeleton(st[0], st[1]))))
 	}
 	b.WriteString(strings.Join(ss, ",\n") + "]\n\n")
+
+	// the one-line accessors of the step types (every exported method that is not covered elsewhere)
+	covered := map[string]bool{"AbstractStep": true}
+	for _, t := range stepTypes {
+		covered[t] = true
+	}
+	var akeys []string
+	for k := range methods {
+		parts := strings.SplitN(k, ".", 2)
+		if covered[parts[0]] && ast.IsExported(parts[1]) && !notAccessor[parts[1]] {
+			akeys = append(akeys, k)
+		}
+	}
+	sort.Strings(akeys)
+	b.WriteString("def accessors : List (String × String × String × String) := [\n")
+	var as []string
+	for _, k := range akeys {
+		parts := strings.SplitN(k, ".", 2)
+		kind, f := accessorSem(methods[k])
+		as = append(as, fmt.Sprintf("  (%s, %s, %s, %s)", q(parts[0]), q(parts[1]), q(kind), q(f)))
+	}
+	b.WriteString(strings.Join(as, ",\n") + "]\n\n")
+
+	// the constructors of the covered types
+	isCovered := map[string]bool{}
+	for _, t := range all {
+		isCovered[t] = true
+	}
+	var cnames []string
+	for n := range funcsTop {
+		if strings.HasPrefix(n, "New") {
+			if t, _, ok := ctorSem(n, 0); ok && isCovered[t] {
+				cnames = append(cnames, n)
+			}
+		}
+	}
+	sort.Strings(cnames)
+	b.WriteString("def ctors : List (String × String × List (String × String × Int)) := [\n")
+	var cs2 []string
+	for _, n := range cnames {
+		t, inits, _ := ctorSem(n, 0)
+		var is []string
+		for _, in := range inits {
+			is = append(is, fmt.Sprintf("(%s, %s, %s)", q(in[0]), q(in[1]), in[2]))
+		}
+		cs2 = append(cs2, fmt.Sprintf("  (%s, %s, [%s])", q(n), q(t), strings.Join(is, ", ")))
+	}
+	b.WriteString(strings.Join(cs2, ",\n") + "]\n\n")
 	b.WriteString("end Gen.C08\n")
 	if err := os.WriteFile(*out, []byte(b.String()), 0o644); err != nil {
 		die("%v", err)
